@@ -128,8 +128,10 @@ Notation "'rd' x <- m ; k" := (bindM m (fun x => k))
    (an allocator failure aborts the process: seen by the harness, not
    modelled).  HashMap::with_capacity / reserve are modelled by the same rule
    on the entry size, which under-approximates hashbrown's real request. *)
+Definition capn (cap : option N) (n : N) : N :=
+  match cap with Some k => N.min n k | None => n end.
 Definition alloc (c : cfg) (n sz : N) : M unit := fun bs =>
-  let n' := match c_cap c with Some k => N.min n k | None => n end in
+  let n' := capn (c_cap c) n in
   if isize_max <? n' * sz then (Panic 1, n' * sz) else (Ok (tt, bs), n' * sz).
 
 (* ------------------------------------------------------------------ *)
@@ -525,11 +527,14 @@ Definition de_value_top (c : cfg) : M value := fun bs => de_value c (length bs) 
 
 Definition u8b (x : N) : bool := x <? 256.
 Definition u64b (x : N) : bool := x <? two64.
-(* a Vec / String / HashMap of elements of sz bytes exists in memory: its
-   length times the element size is at most isize::MAX *)
-Definition fits {A} (sz : N) (l : list A) : bool := len_N l * sz <=? isize_max.
+(* a Vec / String / HashMap of n elements of sz bytes can be read back: its
+   length fits a usize and the capacity the reader requests for it - the whole
+   n * sz without a cap (true of anything that exists in memory: at most
+   isize::MAX bytes), min(n, cap) * sz with the cap - is at most isize::MAX *)
+Definition fitn (cap : option N) (sz n : N) : bool := u64b n && (capn cap n * sz <=? isize_max).
+Definition fits {A} (cap : option N) (sz : N) (l : list A) : bool := fitn cap sz (len_N l).
 (* a String: valid UTF-8 of a length that fits *)
-Definition strb (s : bytes) : bool := utf8_valid s && fits 1 s.
+Definition strb (cap : option N) (s : bytes) : bool := utf8_valid s && fits cap 1 s.
 
 Fixpoint nodup_keys {V} (l : list (bytes * V)) : bool :=
   match l with
@@ -549,18 +554,19 @@ Definition sizes_okb (s : sizes) : bool :=
    memory, Strings are UTF-8, Day/Month/Year/DayOfWeek/Bop are in range, a
    BuiltInFunction is one of the variants, hash-map keys are distinct) *)
 Section Wf.
+Variable cap : option N.       (* the reader's capacity cap, if any *)
 Variable sz : sizes.           (* element sizes of the build *)
 
 Definition wfc_biguint (b : biguint) : bool :=
-  match b with Small x => u64b x | Large v => forallb u64b v && fits 8 v end.
+  match b with Small x => u64b x | Large v => forallb u64b v && fits cap 8 v end.
 Definition wfc_bigrat (q : bigrat) : bool := wfc_biguint (r_num q) && wfc_biguint (r_den q).
 Definition wfc_real (r : real) : bool := match r with RSimple q | RPi q => wfc_bigrat q end.
 Definition wfc_complex (z : complex) : bool := wfc_real (c_re z) && wfc_real (c_im z).
 Definition wfc_part (p : complex * bigrat) : bool := wfc_complex (fst p) && wfc_bigrat (snd p).
-Definition wfc_bu (p : bytes * complex) : bool := strb (fst p) && wfc_complex (snd p).
+Definition wfc_bu (p : bytes * complex) : bool := strb cap (fst p) && wfc_complex (snd p).
 Definition wfc_named_unit (u : named_unit) : bool :=
-  strb (nu_prefix u) && strb (nu_singular u) && strb (nu_plural u) &&
-  forallb wfc_bu (nu_base u) && fits (sz_bu sz) (nu_base u) && nodup_keys (nu_base u) &&
+  strb cap (nu_prefix u) && strb cap (nu_singular u) && strb cap (nu_plural u) &&
+  forallb wfc_bu (nu_base u) && fits cap (sz_bu sz) (nu_base u) && nodup_keys (nu_base u) &&
   wfc_complex (nu_scale u).
 Definition wfc_unit_exp (u : unit_exp) : bool := wfc_named_unit (ue_unit u) && wfc_complex (ue_exp u).
 Definition wfc_base (b : base) : bool :=
@@ -568,45 +574,45 @@ Definition wfc_base (b : base) : bool :=
 Definition wfc_fstyle (f : fstyle) : bool :=
   match f with FDp n | FSf n => u64b n | _ => true end.
 Definition wfc_number (n : number) : bool :=
-  forallb wfc_part (n_value n) && fits (sz_part sz) (n_value n) &&
-  forallb wfc_unit_exp (n_unit n) && fits (sz_uexp sz) (n_unit n) &&
+  forallb wfc_part (n_value n) && fits cap (sz_part sz) (n_value n) &&
+  forallb wfc_unit_exp (n_unit n) && fits cap (sz_uexp sz) (n_unit n) &&
   wfc_base (n_base n) && wfc_fstyle (n_format n).
 
 End Wf.
 
-Fixpoint wfc_value (asn : list bytes) (sz : sizes) (v : value) {struct v} : bool :=
+Fixpoint wfc_value (asn : list bytes) (cap : option N) (sz : sizes) (v : value) {struct v} : bool :=
   match v with
-  | VNum n => wfc_number sz n
-  | VBuiltin s => mem s asn && strb s
+  | VNum n => wfc_number cap sz n
+  | VBuiltin s => mem s asn && strb cap s
   | VFormat f => wfc_fstyle f
   | VBase b => wfc_base b
-  | VFn p e sc => strb p && wfc_expr asn sz e && wfc_oscope asn sz sc
-  | VObject it => wfc_items asn sz it && (items_len it * sz_item sz <=? isize_max)
-  | VString s => strb s
+  | VFn p e sc => strb cap p && wfc_expr asn cap sz e && wfc_oscope asn cap sz sc
+  | VObject it => wfc_items asn cap sz it && fitn cap (sz_item sz) (items_len it)
+  | VString s => strb cap s
   | VMonth m => monthb m
   | VDow d => d <=? 6
   | VDate y m d => yearb y && monthb m && dayb d
   | VDp | VSf | VUnit | VBool _ => true
   end
-with wfc_expr (asn : list bytes) (sz : sizes) (e : expr) {struct e} : bool :=
+with wfc_expr (asn : list bytes) (cap : option N) (sz : sizes) (e : expr) {struct e} : bool :=
   match e with
-  | ELit v => wfc_value asn sz v
-  | EIdent s => strb s
-  | EParens a | EUMinus a | EUPlus a | EUDiv a | EFact a => wfc_expr asn sz a
-  | EBop op a b => (op <=? 13) && wfc_expr asn sz a && wfc_expr asn sz b
+  | ELit v => wfc_value asn cap sz v
+  | EIdent s => strb cap s
+  | EParens a | EUMinus a | EUPlus a | EUDiv a | EFact a => wfc_expr asn cap sz a
+  | EBop op a b => (op <=? 13) && wfc_expr asn cap sz a && wfc_expr asn cap sz b
   | EApply a b | EApplyFn a b | EApplyMul a b | EAs a b | EStatements a b
-  | EEquality _ a b => wfc_expr asn sz a && wfc_expr asn sz b
-  | EFn s a | EOf s a | EAssign s a => strb s && wfc_expr asn sz a
+  | EEquality _ a b => wfc_expr asn cap sz a && wfc_expr asn cap sz b
+  | EFn s a | EOf s a | EAssign s a => strb cap s && wfc_expr asn cap sz a
   end
-with wfc_scope (asn : list bytes) (sz : sizes) (s : scope) {struct s} : bool :=
-  match s with Scope id e sc inner => strb id && wfc_expr asn sz e && wfc_oscope asn sz sc && wfc_oscope asn sz inner end
-with wfc_oscope (asn : list bytes) (sz : sizes) (o : oscope) {struct o} : bool :=
-  match o with ONone => true | OSome s => wfc_scope asn sz s end
-with wfc_items (asn : list bytes) (sz : sizes) (it : items) {struct it} : bool :=
-  match it with INil => true | ICons k v r => strb k && wfc_value asn sz v && wfc_items asn sz r end.
+with wfc_scope (asn : list bytes) (cap : option N) (sz : sizes) (s : scope) {struct s} : bool :=
+  match s with Scope id e sc inner => strb cap id && wfc_expr asn cap sz e && wfc_oscope asn cap sz sc && wfc_oscope asn cap sz inner end
+with wfc_oscope (asn : list bytes) (cap : option N) (sz : sizes) (o : oscope) {struct o} : bool :=
+  match o with ONone => true | OSome s => wfc_scope asn cap sz s end
+with wfc_items (asn : list bytes) (cap : option N) (sz : sizes) (it : items) {struct it} : bool :=
+  match it with INil => true | ICons k v r => strb cap k && wfc_value asn cap sz v && wfc_items asn cap sz r end.
 
-Definition wfc_entry (asn : list bytes) (sz : sizes) (kv : bytes * value) : bool := strb (fst kv) && wfc_value asn sz (snd kv).
-Definition wfc_vars (asn : list bytes) (sz : sizes) (m : vars) : bool := forallb (wfc_entry asn sz) m && fits (sz_var sz) m && nodup_keys m.
+Definition wfc_entry (asn : list bytes) (cap : option N) (sz : sizes) (kv : bytes * value) : bool := strb cap (fst kv) && wfc_value asn cap sz (snd kv).
+Definition wfc_vars (asn : list bytes) (cap : option N) (sz : sizes) (m : vars) : bool := forallb (wfc_entry asn cap sz) m && fits cap (sz_var sz) m && nodup_keys m.
 
 
 (* wf_sem: what evaluation and printing additionally rely on (C14 loaded_wf):
